@@ -736,7 +736,7 @@ class Served(Family):
     the directory the written root IS for the operating system."""
     name = "served"
     quick_n = 1200
-    thorough_n = 30000
+    thorough_n = 20000
 
     def setup(self):
         Static.setup(self)
@@ -779,7 +779,7 @@ class Served(Family):
 
     def _where(self, case):
         via = {"arg": "as the argument of `nauyaca serve`", "server": "as [server] document_root", "location": f"in [[locations]] (prefixes {case['prefixes']})"}[case["how"]]
-        return (f"document root written {('<base>/' if not case['rel'] else '')}{case['rootsp']!r} {'(relative to the working directory <base>) ' if case['rel'] else ''}"
+        return (f"document root written {(('' if case['rel'] else '<base>/') + case['rootsp'])!r} {'(relative to the working directory <base>) ' if case['rel'] else ''}"
                 f"{via}, which is the directory <base>/root")
 
     def oracle(self, case, obs):
